@@ -25,6 +25,13 @@ RULE = ("v4 vectors built from own tables; a case is one accepted vector string;
 
 def check_vector(P, vec, variants=False, channels=False):
     P.remember({"vector": vec})
+    if P.evaluations % 6 == 2:
+        # the application first met rejected look-alikes of this very vector (a field repeated verbatim, a field missing,
+        # the other letter case): what they leave behind must not change how the vector itself is scored
+        f = vec.split("/")
+        for bad in ("/".join(f + f[-1:]), "/".join(f[:1] + f), "/".join(f[:-1]), vec.lower(), vec + "/", "/".join(reversed(f + f[:1]))):
+            obs.call(lib().CLS["4"], bad)
+        P.stratum("rejected-look-alikes-constructed-first")
     L = lib()
     P.evaluations += 1
     ok, o = obs.call(obs.construct, L.CVSS4, vec)
